@@ -578,6 +578,37 @@ def run(repo, rep):
         except SyntaxError:
             return t
         return norm(_Present().visit(e_))
+    # replies collected in a local mapping before the tables are written: the presentation context id is what identifies a
+    # context (PS3.8 9.3.3.2) -- a mapping keyed by anything else (the SOP class: one class may be proposed in two contexts, as SCU
+    # and as SCP) loses a reply
+    pk = []
+    for hf_ in repo.helper_closure(req):
+        item_vars = {}
+        for lp_ in [x for x in ast.walk(hf_.node) if isinstance(x, ast.For) and isinstance(x.target, ast.Name)
+                    and 'variable_items' in norm(x.iter)]:
+            item_vars[lp_.target.id] = lp_
+        for iv, lp_ in item_vars.items():
+            defs_ = {}      # locals bound to the proposed definition looked up by the reply's id
+            for a_ in ast.walk(lp_):
+                if isinstance(a_, ast.Assign) and len(a_.targets) == 1 and isinstance(a_.targets[0], ast.Name) \
+                        and ('%s.context_id' % iv) in norm(a_.value) and 'context_def_list' in norm(a_.value):
+                    defs_[a_.targets[0].id] = a_
+            good_keys = {'%s.context_id' % iv} | {'%s.id' % d_ for d_ in defs_}
+            for c_ in ast.walk(lp_):
+                key_, val_, tgt_ = None, None, None
+                if isinstance(c_, ast.Call) and isinstance(c_.func, ast.Attribute) and c_.func.attr == 'setdefault' and len(c_.args) == 2 \
+                        and isinstance(c_.func.value, ast.Name):
+                    tgt_, key_, val_ = c_.func.value.id, c_.args[0], c_.args[1]
+                elif isinstance(c_, ast.Assign) and len(c_.targets) == 1 and isinstance(c_.targets[0], ast.Subscript) \
+                        and isinstance(c_.targets[0].value, ast.Name):
+                    tgt_, key_, val_ = c_.targets[0].value.id, c_.targets[0].slice, c_.value
+                if key_ is None or not any(isinstance(x, ast.Name) and x.id == iv for x in ast.walk(val_)):
+                    continue
+                if norm(key_) not in good_keys:
+                    pk.append('%s: replies are collected in %s under %s, not under the reply\'s context id: a second context with the same '
+                              'key (one SOP class proposed as SCU and as SCP) loses its answer' % (hf_.loc(c_), tgt_, norm(key_)))
+    rep.check(not pk, 'C11.Q3', 'asceprovider:AssociationRequester._request:reply-keys', req.loc(),
+              'replies are matched to proposals by presentation context id', '; '.join(sorted(set(pk))))
     whole = [e for e, _s in st if len(e.args) < 2]
     if whole:
         # ``self.sop_classes_as_scu = <a dict built in a local>``: the table is replaced as a whole, its entries were written to a
